@@ -479,6 +479,10 @@ pub fn run_c11(ctx: &Ctx) -> i32 {
             caps.push(format!("wall-clock budget reached after completing depth {}", depth));
             break;
         }
+        if rss_gb() > rss_cap_gb() {
+            caps.push(format!("resident-memory cap {} GiB reached after completing depth {}", rss_cap_gb(), depth));
+            break;
+        }
         if ctx.vio_count.load(std::sync::atomic::Ordering::Relaxed) > 0 {
             caps.push(format!("stopped after depth {} because violations were found (breadth-first: they are shortest ones)", depth));
             break;
